@@ -552,7 +552,55 @@ class SerExecutor(ETreeMixin, Executor):
     def call_builtin(self, st, name, args, kwargs, node):
         if name == "type":
             return self.b_type(st, args, kwargs, node)
+        if name == "map" and len(args) == 2 and not kwargs and isinstance(args[0], VFunc):
+            # map(f, xs) consumed eagerly (as generator expressions are): the calls happen in order, one per element
+            items = self.concrete_items(st, args[1])
+            if items is not None:
+                acc = [(st, [])]
+                for it in items:
+                    acc = [(s2, vals + [v]) for (s, vals) in acc for (s2, v) in self.call(s, args[0], [it], {}, node)]
+                return [(s, VTuple(vals)) for (s, vals) in acc]
+            if isinstance(args[1], VSeq):
+                r = self._map_over_seq(st, args[0], args[1], node)
+                if r is not None:
+                    return r
         return super().call_builtin(st, name, args, kwargs, node)
+
+    def _map_over_seq(self, st, f, seq, node):
+        """map(f, <index-based sequence>): the index-wise image (same reading as a comprehension over the sequence)."""
+        ex = self
+        frames0 = [fr.copy() for fr in st.frames]
+
+        def elem_at(i, record=False):
+            body = st.fork()
+            body.frames = [fr.copy() for fr in frames0]
+            if not record:
+                ex.sinks.append([])
+            try:
+                res = ex.call(body, f, [seq.elem(i)], {}, node)
+            finally:
+                if not record:
+                    ex.sinks.pop()
+            if len(res) != 1:
+                ex.unsupported(node, "mapped function forks")
+            if record:
+                for fact in res[0][0].pc[len(st.pc):]:
+                    st.assume(z3.Implies(z3.And(i >= 0, i < seq.length), fact))
+            return res[0][1]
+
+        elem_at(z3.Int(fresh_name("mi")), record=True)
+        return [(st, VSeq(seq.length, elem_at, "map"))]
+
+    def call(self, st, f, args, kwargs, node):
+        # functools.partial(g, *a, **k): a callable that remembers g and the leading / keyword arguments; calling it is calling g
+        # with the remembered arguments first and the call's keywords overriding the remembered ones (documented behaviour)
+        if isinstance(f, VFunc) and f.how == "ext" and f.a == "functools.partial" and args and isinstance(args[0], (VFunc, VType)) \
+                and "functools.partial" not in self.reg.ext_models:
+            return [(st, VFunc("partial", args[0], (tuple(args[1:]), dict(kwargs))))]
+        if isinstance(f, VFunc) and f.how == "partial":
+            pre_args, pre_kw = f.b
+            return self.call(st, f.a, list(pre_args) + list(args), {**pre_kw, **kwargs}, node)
+        return super().call(st, f, args, kwargs, node)
 
     def b_len(self, st, args, kwargs, node):
         v = args[0]
@@ -1065,9 +1113,13 @@ class SerExecutor(ETreeMixin, Executor):
         if kind not in ("list", "gen"):
             self.unsupported(n, "non-list comprehension over a sequence")
         ex = self
+        # the element expression is evaluated lazily (when an element is read): by then the live state may be inside another
+        # (inlined) function whose frame hides this function's locals -- its lexical frames are those of *now*
+        frames0 = [f.copy() for f in st.frames]
 
         def elem_at(i, record=False):
             body = st.fork()
+            body.frames = [f.copy() for f in frames0]
             body.frames.append(Frame({}, len(body.frames) - 1, body.frame.fnode))
             res = []
             if not record:
